@@ -167,6 +167,12 @@ func CheckKeyValue(path string, rwPath *admin.ReadWritePath, val *configapi.Type
 	if len(indexNames) == 0 {
 		return nil
 	}
+	// every index value of the path has to be valid (the loop below returns at the first index of a non-key leaf)
+	for _, idxValue := range indexValues {
+		if err := CheckPathIndexIsValid(idxValue); err != nil {
+			return err
+		}
+	}
 	for i, idxName := range indexNames {
 		if err := CheckPathIndexIsValid(indexValues[i]); err != nil {
 			return err
